@@ -367,3 +367,233 @@ def check_c02_c04(ctx, which, n_quick, n_thorough):
 def c02(ctx): return check_c02_c04(ctx, "C02", 200, 6000)
 def c04(ctx): return check_c02_c04(ctx, "C04", 200, 6000)
 CHECKS.update({"C02": c02, "C04": c04})
+
+# ------------------------------------------------------------------------------------------ C12
+def c12_pattern_file(path, part, r):
+    """files that carry every 8-bit value, every 16-bit value (3 parts) and a float grid in every float position"""
+    import struct
+    from . import c3dgen
+    F = lambda v: struct.unpack("<I", struct.pack("<f", v))[0]
+    grid = [(s << 31) | (e << 23) | m for e in range(256) for s in (0, 1) for m in (0, 1, 0x400000, 0x7fffff)]   # 2048 patterns
+    L = c3dgen.Layout(r); L.lead_zeros = 0; L.zero_prologue = False; L.param_block = 2; L.order = "groups_first"; L.sparse_ids = False; L.extra_blocks = 0
+    np_, nch, nsub = 4, 4, 2
+    per_frame = np_ * 4 + nch * nsub          # 24 floats
+    nfr = (len(grid) + per_frame - 1) // per_frame
+    it = iter(grid + [0] * per_frame)
+    frames = [([[next(it) for _ in range(4)] for _ in range(np_)], [[next(it) for _ in range(nch)] for _ in range(nsub)]) for _ in range(nfr)]
+    ints = list(range(-32768, 32768))
+    chunk = ints[part * 22000:(part + 1) * 22000]
+    first = [1, 2, 0x7F, 0x80, 0xFF, 0x100, 0x7FFF, 0x8000, 0xFFFE - nfr][part % 9] if part < 9 else 1
+    groups = [(1, b"POINT", False, b""), (2, b"ANALOG", False, b""), (3, b"PAT", False, b"")]
+    params = [(1, b"USED", False, "I", [], [np_], b""), (1, b"SCALE", False, "F", [], [F(-1.0)], b""), (1, b"RATE", False, "F", [], [F(100.0)], b""),
+              (1, b"FRAMES", False, "I", [], [nfr], b""), (1, b"LABELS", False, "C", [2, np_], [b"P%d" % i for i in range(np_)], b""),
+              (2, b"USED", False, "I", [], [nch], b""), (2, b"RATE", False, "F", [], [F(200.0)], b""), (2, b"LABELS", False, "C", [2, nch], [b"C%d" % i for i in range(nch)], b""),
+              (3, b"BYTES", False, "B", [128, 2], list(range(-128, 128)), b""),
+              (3, b"INTS", False, "I", [220, 100], chunk + [0] * (22000 - len(chunk)), b""),
+              (3, b"FLOATS", False, "F", [64, 32], grid, b""),
+              (3, b"ONEBYTE", False, "B", [], [[-128, -1, 0, 1, 127, 0x55 - 256 if 0x55 > 127 else 0x55][part % 6]], b""),
+              (3, b"ONEINT", False, "I", [], [[-32768, -1, 0, 1, 32767, 256, 255, -256, -255][part % 9]], b"")]
+    ev = [(grid[(part * 18 + i) * 7 % len(grid)], i % 2, b"E%d" % i) for i in range(18)]
+    gap = [0, 1, 2, 0x7F, 0x80, 0xFF, 0x100, 0x7FFF, 0x8000, 0xFFFE, 0xFFFF][part % 11]
+    header = dict(points=np_, analog_per_frame=nch * nsub, first=first, last=first + nfr - 1, gap=gap, scale=F(-1.0), subframes=nsub, rate=F(100.0), events=ev)
+    b, ds = c3dgen.encode(dict(groups=groups, params=params, header=header, frames=frames), L, r)
+    open(path, "wb").write(b)
+    return "patterns-part%d" % part
+
+def c12(ctx):
+    ctx.audit = leanaudit.audit(ctx.pid, thorough=not ctx.quick)
+    exe = ctx.exe("asan")
+    # (1) the codec helpers on every 1- and 2-byte input (and boundary 3/4-byte inputs)
+    L = ["new"]
+    for v in range(256): L.append("hex2int x%02x" % v); L.append("hex2uint x%02x" % v)
+    step = 1 if not ctx.quick else 1
+    for v in range(0, 65536, step): L.append("hex2int x%02x%02x" % (v & 255, v >> 8)); L.append("hex2uint x%02x%02x" % (v & 255, v >> 8))
+    for b4 in ("x00000000", "xffffff7f", "x00000080", "xffffffff", "x0000803f", "x000080bf", "x01000000", "xffff0000", "x000000", "xffffff", "x000080"):
+        L.append("hex2int " + b4); L.append("hex2uint " + b4)
+    res = run.run_pair(L, exe, timeout=300)
+    ctx.record_pair(res, L[:5] + ["... (%d codec ops)" % (len(L) - 1)], "codec")
+    ctx.sample("[codec] new ; hex2int x00 ; hex2uint x00 ; ... ; hex2int xffff ; hex2uint xffff (every 1- and 2-byte input)")
+    # independent oracle: two's complement / unsigned little endian
+    import struct
+    lines = res.script.split("\n")
+    bad = 0
+    for rec in res.hrecs:
+        if rec["op"] not in ("hex2int", "hex2uint"): continue
+        t = lines[rec["n"] - 1].split(" ")
+        raw = bytes.fromhex(t[1][1:])
+        if len(raw) > 2 and rec["op"] == "hex2int" and len(raw) == 3: continue
+        u = int.from_bytes(raw, "little")
+        want = u if rec["op"] == "hex2uint" else (u - (1 << (8 * len(raw))) if u >= (1 << (8 * len(raw) - 1)) else u)
+        ctx.distinct_key("codec", rec["op"], t[1])
+        if rec["res"] != "V %d" % want:
+            bad += 1
+            if bad <= 3: ctx.fail("codec_" + rec["op"], {"bytes": t[1]}, "%s(%s) returned %s, the bytes encode %d" % (rec["op"], t[1], rec["res"], want), ["new", lines[rec["n"] - 1]])
+    ctx.count("codec_inputs", len(L) - 1)
+    # (2) files that carry every pattern: load, compare with the Spec decoder, re-save, compare again
+    parts = range(3) if ctx.quick else range(12)
+    def one(part):
+        import random
+        wd = run.workdir()
+        path = os.path.join(wd, "pat.c3d")
+        desc = c12_pattern_file(path, part % 3 if part < 3 else part, random.Random(ctx.seed + part)) if part < 3 else c12_pattern_file(path, part, random.Random(ctx.seed + part))
+        S = ["dumpmode full", "load %s" % path, "specdecode %s" % path, "save @W@/p2.c3d", "specdecode @W@/p2.c3d", "load @W@/p2.c3d"]
+        r_ = run.run_pair(S, exe, wd=wd, timeout=300)
+        fails = []
+        m = {x["n"]: x for x in r_.mrecs}
+        try:
+            d1 = run.parse_dump(r_.hrecs[1]["lines"]); sp1 = oracles.parse_spec(m[3]["lines"])
+            for c, w, dt in oracles.c02_compare(d1, sp1): fails.append(("load_" + c, w, dt))
+            sp2 = oracles.parse_spec(m[5]["lines"])
+            pv = lambda sp: [(p["gid"], p["name"], p["type"], p["dims"], p["vals"]) for p in sp["params"] if p["name"] != "x" + b"DATA_START".hex()]
+            if pv(sp1) != pv(sp2): fails.append(("resave_params", {}, "parameter values of the re-saved file differ from the original file"))
+            if sp1["frames"] != sp2["frames"]: fails.append(("resave_frames", {}, "float patterns in the data section changed through load -> save"))
+            hv = lambda sp: (sp["H"]["first"], sp["H"]["last"], sp["H"]["gap"], sp["H"]["rate"], sp["evTimes"], sp["evDisplay"])
+            if hv(sp1) != hv(sp2): fails.append(("resave_header", {}, "header words changed through load -> save: %s vs %s" % (hv(sp1)[:4], hv(sp2)[:4])))
+            d3 = run.parse_dump(r_.hrecs[5]["lines"])
+            df = oracles.diff_content(oracles.content_view(d1), oracles.content_view(d3))
+            if df: fails.append(("reload_" + df[0], df[2], df[1]))
+        except Exception:
+            import traceback; fails.append(("_oracle_error", {}, traceback.format_exc()[-300:]))
+        run.cleanup(wd)
+        return part, S, r_, fails
+    for part, S, r_, fails in core.pmap(one, parts):
+        ctx.record_pair(r_, ["# pattern file part %d (props.c12_pattern_file)" % part] + S, "patterns")
+        for c, w, dt in fails:
+            if c.startswith("_"): ctx.notes.append(dt)
+            else: ctx.fail(c, w, dt, ["# pattern file part %d" % part] + S)
+    ctx.exhaustive = True
+    ctx.sample("[patterns] file with BYTES[128,2] = -128..127, INTS[220,100] = one third of -32768..32767, FLOATS[64,32] = exponent x sign x {0,1,0x400000,0x7fffff} mantissa grid, the same grid as points/residuals/analog samples/event times")
+    return core.finish(ctx, "exhaustive: hex2int/hex2uint on all 2^8 one-byte and all 2^16 two-byte inputs (library, model and a two's-complement oracle); "
+                       "files carrying every 8-bit value as byte parameter, every 16-bit value as integer parameter, and 2048 float patterns "
+                       "(every exponent x both signs x mantissas 0, 1, 0x400000, 0x7fffff: zeros, denormals, infinities, quiet/signalling NaNs) as float parameter, "
+                       "point coordinates, residuals, analog samples and event times; header words at boundary values; each loaded, compared with the Spec decode, re-saved and compared again")
+
+CHECKS.update({"C12": c12})
+
+# ------------------------------------------------------------------------------------------ C17
+def c17_cases(ctx):
+    """(name, limit_kind, relation in {'below','at','beyond'}, script lines)"""
+    X = gen.xhex; F = gen.f2h
+    cases = []
+    def build(name, kind, rel, body, pre=()):
+        L = ["new"] + list(pre) + body + ["save @W@/l.c3d", "load @W@/l.c3d"]
+        cases.append((name, kind, rel, L))
+    def rel(v, lim): return "below" if v < lim else "at" if v == lim else "beyond"
+    for n in (254, 255, 256, 300, 511):
+        build("param-desc-%d" % n, "description", rel(n, 255), ["param x4747 x5050 %s 0 I - 7" % X(bytes(65 + i % 26 for i in range(n)))])
+        build("group-desc-via-load-%d" % n, "description", rel(n, 255), [])   # groups get descriptions only from files; see file cases
+    for n in (126, 127, 128, 200, 255, 256):
+        build("param-name-%d" % n, "name", rel(n, 127), ["param x4747 %s x 0 I - 7" % X(bytes(65 + i % 26 for i in range(n)))])
+        build("group-name-%d" % n, "name", rel(n, 127), ["param %s x5050 x 0 I - 7" % X(bytes(65 + i % 26 for i in range(n)))])
+    for n in (254, 255, 256, 257, 600):
+        build("dim-entry-int-%d" % n, "dimension", rel(n, 255), ["param x4747 x5050 x 0 I %d %s" % (n, ",".join(str(i % 100) for i in range(n)))])
+        build("dim-entry-str-%d" % n, "dimension", rel(n, 255), ["param x4747 x5353 x 0 C - %s" % X(bytes(66 + i % 20 for i in range(n)))])   # string length = first dimension
+    for n in (7, 8, 20):
+        build("ndims-%d" % n, "ndims", "at" if n <= 7 else "beyond-spec", ["param x4747 x5050 x 0 F %s 3f800000" % ",".join(["1"] * n)])
+    for v in (32766, 32767, 32768, -32768, -32769, 65535, 65536, 100000):
+        build("int-value-%d" % v, "int16", "beyond" if (v > 32767 or v < -32768) else "at" if v in (32767, -32768) else "below", ["param x4747 x5050 x 0 I - 1,%d,2" % v])
+    for n in (254, 255, 256):
+        pre = ["point %s" % X(b"P%03d" % i) for i in range(n)] + ["param x504f494e54 x52415445 x 0 F - %s" % F(100.0)]
+        fr = "mkframe v %s -" % ";".join("%s:%s:%s:%s:%s" % (X(b"P%03d" % i), F(float(i)), F(1.0), F(2.0), F(0.5)) for i in range(n))
+        build("points-%d" % n, "points", rel(n, 255), [fr, "frame v", "frame v"], pre)
+        pre = ["analog %s" % X(b"C%03d" % i) for i in range(n)] + ["param x504f494e54 x52415445 x 0 F - %s" % F(100.0), "param x414e414c4f47 x52415445 x 0 F - %s" % F(100.0)]
+        fr = "mkframe v - %s" % ";".join("%s:%s" % (X(b"C%03d" % i), F(float(i))) for i in range(n))
+        build("channels-%d" % n, "channels", rel(n, 255), [fr, "frame v", "frame v"], pre)
+    # record size (16-bit next offset) and parameter block count (8 bit)
+    for d0, d1, r_ in ((127, 128, "below"), (127, 129, "beyond"), (200, 200, "beyond")):   # 4 bytes each + 8 bytes of record overhead after the offset
+        build("record-bytes-%d" % (d0 * d1 * 4 + 8), "record", r_, ["param x4747 x5050 x 0 F %d,%d %s" % (d0, d1, ",".join(["3f800000"] * (d0 * d1)))])
+    pre = ["point x50", "param x504f494e54 x52415445 x 0 F - %s" % F(100.0), "mkframe v x50:3f800000:40000000:40400000:00000000 -", "frame v", "frame v"]
+    for nparams, r_ in ((1, "below"), (2, "at"), (3, "beyond"), (5, "beyond")):        # 64 KB each: 2 -> 254 blocks, 3 -> 379 blocks
+        body = ["param x4747 %s x 0 F 127,128 %s" % (X(b"Q%d" % i), ",".join(["3f800000"] * 16256)) for i in range(nparams)]
+        build("param-blocks-%dx64k" % nparams, "blocks", r_, body, pre)
+    if True:
+        for n in ((32767, 32768) if ctx.quick else (32766, 32767, 32768, 40000)):
+            pre = ["point x50", "param x504f494e54 x52415445 x 0 F - %s" % F(100.0), "dumpmode none", "mkframe v x50:3f800000:40000000:40400000:00000000 -"]
+            build("frames-%d" % n, "frames", rel(n, 32767), ["frame v"] * n + ["dumpmode full", "dump"], pre)
+    return [c for c in cases if c[3][1:-2] or True]
+
+def c17(ctx):
+    from . import c3dgen
+    ctx.audit = leanaudit.audit(ctx.pid, thorough=not ctx.quick)
+    exe = ctx.exe("asan")
+    cases = [c for c in c17_cases(ctx) if "via-load" not in c[0]]
+    def one(case):
+        name, kind, rel, L = case
+        res = run.run_pair(L, exe, keep=False, timeout=600)
+        recs = res.hrecs
+        fails = []
+        try:
+            walk = list(oracles.Walk(res))
+            sv = [(rec, d) for rec, t, prev, d, vars_ in walk if rec["op"] == "save"]
+            ld = [(rec, d) for rec, t, prev, d, vars_ in walk if rec["op"] == "load"]
+            before = None
+            for rec, t, prev, d, vars_ in walk:
+                if rec["op"] == "save": before = prev if d is None else d
+            if not sv: return case, res, [("_nosave", {}, "")]
+            srec = sv[-1][0]; lrec = ld[-1][0] if ld else None
+            if srec["res"] != "R ok":
+                if rel in ("below", "at"): fails.append(("at_limit_refused", {"case": name, "kind": kind}, "content at or below the limit was refused by save: %s" % srec["res"]))
+                return case, res, fails            # beyond the limit and refused: fine
+            after = ld[-1][1] if ld else None
+            same = None
+            if lrec is None or lrec["res"] != "R ok" or after is None: same = False; why = "the saved file does not load (%s)" % (lrec["res"] if lrec else "?")
+            else:
+                df = oracles.diff_content(oracles.content_view(before), oracles.content_view(after))
+                same = df is None; why = df[1] if df else ""
+            if not same:
+                clause = "at_limit_roundtrip" if rel in ("below", "at") else "beyond_limit_silent"
+                fails.append((clause, {"case": name, "kind": kind, "rel": rel}, "%s content (%s) was saved without error but %s" % (rel, name, why)))
+        except Exception:
+            import traceback; fails.append(("_oracle_error", {}, traceback.format_exc()[-400:]))
+        return case, res, fails
+    for case, res, fails in core.pmap(one, cases, workers=8):
+        name, kind, rel, L = case
+        ctx.count("limit_%s_%s" % (kind, rel))
+        ctx.distinct_key("limit", name)
+        ctx.record_pair(res, L if len(L) < 400 else L[:6] + ["# ... %d lines ..." % len(L)] + L[-4:], "limits")
+        if len(ctx.samples) < 4: ctx.sample("[%s %s] %s" % (kind, rel, " ; ".join(l[:60] for l in L[:4]) + " ; ... ; save ; load"))
+        for c, w, dt in fails:
+            if c.startswith("_"): ctx.notes.append("%s: %s" % (name, dt)) if dt else None
+            else: ctx.fail(c, w, dt, L)
+    # limits reachable only through a loaded file: last frame number 65535, 255-character group description, 32767 frames
+    def filecase(spec):
+        import random, struct
+        tag, first, nfr, gdesc = spec
+        r = random.Random(ctx.seed)
+        wd = run.workdir(); path = os.path.join(wd, "in.c3d")
+        Ff = lambda v: struct.unpack("<I", struct.pack("<f", v))[0]
+        L_ = c3dgen.Layout(r); L_.lead_zeros = 0; L_.zero_prologue = False; L_.param_block = 2; L_.order = "groups_first"; L_.sparse_ids = False; L_.extra_blocks = 0
+        groups = [(1, b"POINT", False, bytes(65 + i % 26 for i in range(gdesc))), (2, b"ANALOG", False, b"")]
+        params = [(1, b"USED", False, "I", [], [1], b""), (1, b"SCALE", False, "F", [], [Ff(-1.0)], b""), (1, b"RATE", False, "F", [], [Ff(100.0)], b""),
+                  (1, b"FRAMES", False, "I", [], [nfr if nfr < 32768 else nfr - 65536], b""), (1, b"LABELS", False, "C", [1, 1], [b"P"], b""),
+                  (2, b"USED", False, "I", [], [0], b""), (2, b"RATE", False, "F", [], [Ff(100.0)], b""), (2, b"LABELS", False, "C", [1, 0], [], b"")]
+        header = dict(points=1, analog_per_frame=0, first=first, last=first + nfr - 1, gap=0, scale=Ff(-1.0), subframes=1, rate=Ff(100.0), events=[])
+        frames = [([[Ff(float(i % 1000)), 1, 2, 3]], [[]]) for i in range(nfr)]
+        b, ds = c3dgen.encode(dict(groups=groups, params=params, header=header, frames=frames), L_, r)
+        open(path, "wb").write(b)
+        S = ["dumpmode full", "load %s" % path, "save @W@/o.c3d", "load @W@/o.c3d"]
+        res = run.run_pair(S, exe, wd=wd, timeout=600)
+        fails = []
+        try:
+            d1 = run.parse_dump(res.hrecs[1]["lines"]) if res.hrecs[1]["res"] == "R ok" else None
+            d2 = run.parse_dump(res.hrecs[3]["lines"]) if len(res.hrecs) > 3 and res.hrecs[3]["res"] == "R ok" else None
+            if d1 is None: fails.append(("_input_refused", {}, res.hrecs[1]["res"]))
+            elif res.hrecs[2]["res"] == "R ok":
+                df = ("reload", "re-saved file does not load", {}) if d2 is None else oracles.diff_content(oracles.content_view(d1), oracles.content_view(d2))
+                if df: fails.append(("at_limit_roundtrip", {"case": tag, "kind": "file"}, "%s: %s" % (tag, df[1])))
+        except Exception:
+            import traceback; fails.append(("_oracle_error", {}, traceback.format_exc()[-300:]))
+        run.cleanup(wd)
+        return spec, S, res, fails
+    fcases = [("last-frame-65535", 65535 - 9, 10, 0), ("group-desc-255", 1, 2, 255), ("group-desc-254", 1, 2, 254), ("frames-32767-file", 1, 32767, 0), ("frames-32766-file", 1, 32766, 0)]
+    for spec, S, res, fails in core.pmap(filecase, fcases, workers=5):
+        ctx.count("limit_file_" + spec[0]); ctx.distinct_key("limit", spec[0])
+        ctx.record_pair(res, ["# generated file %s (first frame %d, %d frames, group description %d chars)" % spec] + S, "limits-file")
+        for c, w, dt in fails:
+            if c.startswith("_"): ctx.notes.append("%s: %s" % (spec[0], dt))
+            else: ctx.fail(c, w, dt, ["# generated file %s" % (spec,)] + S)
+    return core.finish(ctx, "for each capacity limit L of the format (description 255, name 127, dimension entry 255, dimensions 7, 16-bit integer values, 255 points, 255 channels, "
+                       "record 65535 bytes, 255 parameter blocks, 32767 frames, last frame number 65535): content at L-1, L, L+1 and far beyond, built through the API (or a generated file where "
+                       "the API cannot produce it), saved, reloaded and compared; at/below the limit the content must survive; beyond it save must throw or the file must still load to the same content")
+
+CHECKS.update({"C17": c17})
